@@ -145,7 +145,7 @@ int main(int argc, char **argv) {
             for (long v = 0; v < total; v++, idx++) {
                 if (idx % nsh != shard) continue;
                 long w = v; for (int i = 0; i < len; i++) { x[i] = AL[w & 7]; w >>= 3; }
-                vh_watchdog(5); do_all(x, (size_t) len); alarm(0);
+                vh_watchdog(10); do_all(x, (size_t) len); alarm(0);
             }
         }
     } else if (!strcmp(argv[1], "rand")) {
@@ -154,7 +154,7 @@ int main(int argc, char **argv) {
         for (int i = 0; i < n; i++) {
             size_t len = 5 + vh_rand() % 40;
             for (size_t j = 0; j < len; j++) x[j] = (vh_rand() % 3) ? AL[vh_rand() & 7] : (unsigned char) (1 + vh_rand() % 255);
-            vh_watchdog(5); do_all(x, len); alarm(0);
+            vh_watchdog(10); do_all(x, len); alarm(0);
         }
     } else return 2;
     vh_close();
